@@ -397,6 +397,41 @@ def r10_6(ctx):
     ctx.run_rule("R10.6", "header-name comparison discipline", body, floor=14)
 
 
+TRANSFORM_FUNCTIONS = {
+    "camelize::Camelize": ("to_lower_camel_case", 1),
+    "dasherize::Dasherize": ("to_kebab_case", 1),
+    "underscorize::Underscorize": ("to_snake_case", 1),
+    "lowercase::Lowercase": ("to_lowercase", 1),   # the Unicode one: host and header captures are not ASCII-only
+    "uppercase::Uppercase": ("to_uppercase", 1),
+    "replace::Replace": ("replace", 3),
+}
+
+
+def r10_8(ctx):
+    """Each transformer is the function its name says, applied to the whole value (the functions
+    themselves, std / heck, are trusted)."""
+    F = ctx.facts
+
+    def body(r):
+        for short, (fname, argc) in sorted(TRANSFORM_FUNCTIONS.items()):
+            f = F.fn("<marker::transformer::%s as marker::transformer::Transform>::transform" % short)
+            r.analysed(f)
+            rets = {p.end[1] for p in Sym(f, copies=True).paths() if p.end[0] == "ret"}
+            ok = len(rets) == 1
+            v = next(iter(rets)) if rets else ()
+            ok = ok and v[0] == "call" and v[1].rsplit("::", 1)[1] == fname and len(v[2]) == argc and _view_of(v[2][0]) == ("param", 2)
+            if ok and short.startswith("replace"):
+                ok = all(mentions_field(a, n) for a, n in zip(v[2][1:], ("something", "with")))
+            r.ob("transformer:%s:is-%s" % (short.rsplit("::", 1)[1], fname), ok, f.site, "returns %s" % [show(x, f) for x in rets])
+    ctx.run_rule("R10.8", "each transformer applies the function it is named after", body, floor=6)
+
+
+def _view_of(e):
+    while e[0] == "call" and e[1].rsplit("::", 1)[1] in ("deref", "as_str", "as_ref", "borrow") and e[2]:
+        e = e[2][0]
+    return e
+
+
 def run(ctx):
     r10_1(ctx)
     r10_2(ctx)
@@ -404,5 +439,6 @@ def run(ctx):
     r10_4(ctx)
     r10_5(ctx)
     r10_6(ctx)
+    r10_8(ctx)
     from .c12 import r12_5
     r12_5(ctx, rid="R10.7")  # the capture regex stays the capture pattern when it is compiled
